@@ -249,7 +249,7 @@ def apply_subst(text, rule, regex, repl, log, what, count_ok=None):
         if text[mm.start()] not in ' \n\t' and m[mm.start()] in ' ' and not _in_string(m, text, mm.start()):
             continue
         out.append(text[pos:mm.start()])
-        out.append(mm.expand(repl))
+        out.append(mm.expand(re.sub(r'\\(?![0-9]|g<)', r'\\\\', repl)))
         pos = mm.end()
         n += 1
     out.append(text[pos:])
